@@ -30,7 +30,7 @@ type adapterInfo struct {
 func runC15(c *Ctx) {
 	R := c.R
 	R.Rule("entry-table", "each Sort* function makes exactly one call to sort.Sort (Stable variants: sort.Stable) on an adapter of its own slice; net direction is as promised", 6)
-	R.Rule("adapter", "adapter types passed to sort: Len = len(wrapped), Swap exchanges exactly i and j, Less(i,j) = s[i]<s[j] resp. less(s[i],s[j]) (or exactly the reverse; nothing else)", 6)
+	R.Rule("adapter", "adapter types passed to sort: Len = len(wrapped), Swap exchanges exactly i and j, Less(i,j) = s[i]<s[j] resp. less(s[i],s[j]) (or exactly the reverse; nothing else)", 3)
 	R.Rule("search-predicate", "BinarySearch = sort.Search(len(slice), element >= target); BinarySearchFunc = sort.Search(len(slice), !less(element))", 2)
 	R.Rule("shuffle", "Shuffle = rand.Shuffle(len, swap i,j); ShuffleRand = generator.Shuffle(len, swap i,j) on the generator parameter", 2)
 
